@@ -38,3 +38,13 @@ pub fn sim_guard<T>(f: impl FnOnce() -> T) -> Result<T, SimPanic> {
 pub fn compile(flow: SimFlow<'_>) -> Result<CompiledSim, SimPanic> {
     sim_guard(|| flow.compiled())
 }
+
+/// Run `f` over `items` on one thread each (trybuild compiles of different programs can run
+/// concurrently; hydro_lang's trybuild driver serialises what has to be serialised).
+pub fn par_map<T: Send, R: Send>(items: Vec<T>, f: impl Fn(T) -> R + Sync) -> Vec<R> {
+    std::thread::scope(|s| {
+        let f = &f;
+        let hs: Vec<_> = items.into_iter().map(|it| s.spawn(move || f(it))).collect();
+        hs.into_iter().map(|h| h.join().expect("compile thread panicked")).collect()
+    })
+}
